@@ -53,7 +53,7 @@ pub fn raw_state() -> impl Strategy<Value = RawState> {
         0u8..4,
         prop::collection::vec(any::<u16>(), 24),
         (0u8..20, any::<u16>()),
-        prop::collection::vec(prop_oneof![4 => 0x20u8..0x7F, 1 => any::<u8>()], 0..3),
+        prop::collection::vec(crate::pick![4 => 0x20u8..0x7F, 1 => any::<u8>()], 0..3),
         any::<u8>(),
     )
         .prop_map(|(regs, pc, cc, fill, ptr, input, quirk)| RawState { regs, pc, cc, fill, ptr, input, quirk })
@@ -419,6 +419,9 @@ impl Prop for C02 {
         if ctx.worker == 0 {
             rep.class_n("rti-words-excluded", 4096);
         }
+    }
+    fn fuzz_strategy(&self) -> Option<BoxedStrategy<Value>> {
+        Some(crate::fuzzmode::jv((any::<u16>(), any::<bool>(), raw_state()).prop_map(|(w, s, raw)| build_case(if w >> 12 == 8 { w ^ 0x1000 } else { w }, s, &raw))))
     }
     fn replay(&self, _ctx: &Ctx, case: &Value) -> Obs {
         match serde_json::from_value::<Case>(case.clone()) {
